@@ -210,10 +210,61 @@ func abnormal(raw json.RawMessage, timeout bool, stderr string) interface{} {
 
 // ---------------------------------------------------------------- direction (B): seeded random models
 
+// boundaryCase: an acyclic call tree whose number of expansions lies around the fixed budget
+// (5..10), requested through several APIs in one AnalysisByFiles call (the big root first or
+// last, then inner nodes whose own trees fit), and through `call` on the same roots.
+func boundaryCase(r *rand.Rand, id string) Case {
+	k := 5 + r.Intn(6) // expandable nodes
+	in := Input{DI: map[string]string{}}
+	name := func(i int) Callee { return Callee{Pkg: "p", Node: fmt.Sprintf("T%d", i%3), Name: fmt.Sprintf("n%d", i)} }
+	ms := make([]Method, k)
+	for i := 0; i < k; i++ {
+		c := name(i)
+		ms[i] = Method{Pkg: c.Pkg, Node: c.Node, Name: c.Name, Calls: []Callee{}}
+	}
+	// node i>0 gets a random parent among 0..i-1 (so every node is reachable from n0 exactly once: tree)
+	for i := 1; i < k; i++ {
+		p := r.Intn(i)
+		if r.Intn(3) == 0 {
+			p = i - 1 // deep chains
+		}
+		ms[p].Calls = append(ms[p].Calls, name(i))
+	}
+	// every node must be expandable: leaves call an external method; sprinkle extra external callees
+	for i := 0; i < k; i++ {
+		if len(ms[i].Calls) == 0 || r.Intn(4) == 0 {
+			ms[i].Calls = append(ms[i].Calls, Callee{"x", "E", fmt.Sprintf("e%d", r.Intn(3))})
+		}
+		r.Shuffle(len(ms[i].Calls), func(a, b int) { ms[i].Calls[a], ms[i].Calls[b] = ms[i].Calls[b], ms[i].Calls[a] })
+	}
+	in.Methods = ms
+	api := func(i int) Api {
+		c := name(i)
+		return Api{Verb: "GET", Uri: fmt.Sprintf("/n/%d", i), Pkg: c.Pkg, Node: c.Node, Name: c.Name}
+	}
+	id0 := func(i int) string { c := name(i); return c.Pkg + "." + c.Node + "." + c.Name }
+	var ops []Op
+	inner := []int{1 + r.Intn(k-1), 1 + r.Intn(k-1), r.Intn(k)}
+	switch r.Intn(3) {
+	case 0:
+		ops = append(ops, Op{Kind: "api", Apis: []Api{api(0), api(inner[0]), api(inner[1])}})
+	case 1:
+		ops = append(ops, Op{Kind: "api", Apis: []Api{api(inner[0]), api(0), api(inner[1]), api(inner[2])}})
+	default:
+		ops = append(ops, Op{Kind: "call", Root: id0(0), Apis: []Api{}}, Op{Kind: "call", Root: id0(inner[0]), Apis: []Api{}},
+			Op{Kind: "api", Apis: []Api{api(0), api(inner[1])}}, Op{Kind: "call", Root: id0(inner[0]), Apis: []Api{}})
+	}
+	return Case{Case: id, Input: in, Ops: ops}
+}
+
 func gen(seed int64, n int, tier string) []interface{} {
 	r := rand.New(rand.NewSource(seed))
 	var out []interface{}
 	for k := 0; k < n; k++ {
+		if k%3 == 2 {
+			out = append(out, boundaryCase(r, fmt.Sprintf("bound-%d-%d", seed, k)))
+			continue
+		}
 		nm := 2 + r.Intn(14)
 		if r.Intn(4) == 0 {
 			nm = 10 + r.Intn(11)
